@@ -9,16 +9,22 @@ sys.path.insert(0, os.path.dirname(os.path.dirname(os.path.abspath(__file__))))
 from mirsym import harness
 
 modname, fn = sys.argv[1], sys.argv[2]
-sub = sys.argv[3] if len(sys.argv) > 3 else ""
+rest = [a for a in sys.argv[3:] if not a.startswith("-")]
+sub = rest[0] if rest else ""
 os.environ.setdefault("VERIF_KEEP", "")
 I = harness.load()
 mod = importlib.import_module("mirsym." + modname)
 for sc in getattr(mod, fn)():
+    if os.environ.get("MIRSYM_BUDGET"):
+        sc.time_budget = int(os.environ["MIRSYM_BUDGET"])
     if sub and sub not in sc.name:
         continue
     t0 = time.time()
     try:
-        res, stats = sc.run(I)
+        if "-j" in sys.argv:
+            (_, res, stats), = harness.run_parallel([sc], jobs=14)
+        else:
+            res, stats = sc.run(I)
     except Exception:
         traceback.print_exc()
         continue
@@ -30,6 +36,5 @@ for sc in getattr(mod, fn)():
             print("      replay: reproduced=%s %s" % (r.reproduced, r.replay_text[:300]))
             if r.replay_info and "-v" in sys.argv:
                 print("      ", {k: v for k, v in r.replay_info.items() if k != "rust"})
-        if r.cex and "-v" in sys.argv:
-            m = r.cex[0]
-            print("      model:", sorted([(str(d), m[d]) for d in m.decls() if d.arity() == 0], key=lambda x: x[0])[:30])
+        if r.cex_consts and "-v" in sys.argv:
+            print("      model:", r.cex_consts[:30])
